@@ -135,6 +135,17 @@ class World:
         for ms in mspecs:
             cls = modgen.build_class(ms, events, hw=hw)
             cfg[ms['name']] = modgen.module_cfg(ms, cls)
+            if not ms['export'] and rng.random() < 0.6:
+                # an unexported module whose configuration asks for the export of single accessibles: still nothing of
+                # the module is described or reachable
+                ms['cfg_export'] = {}
+                for a in rng.sample(ms['params'] + ms['commands'], min(2, len(ms['params'] + ms['commands']))):
+                    if a.get('constant') is not None:
+                        continue
+                    v = rng.choice([True, '_cfgx_' + a['name'], 'cfgy' + a['name']])
+                    cfg[ms['name']][a['name']] = {'export': v}
+                    ms['cfg_export'][a['name']] = v
+                r.count('unexported_modules_with_configured_exports')
         case = {'sub': 'generated', 'mspecs': mspecs}
         try:
             node = self.nodes.Node(cfg).build()
@@ -240,6 +251,8 @@ class World:
             if not ms['export']:
                 names = [(ms['name'], modgen.wire_name(p) or '_' + p['name'], 'param') for p in ms['params']] + \
                         [(ms['name'], modgen.wire_name(c) or '_' + c['name'], 'cmd') for c in ms['commands']]
+                for an, v in ms.get('cfg_export', {}).items():
+                    names += [(ms['name'], x, 'cfg-export') for x in ([v] if isinstance(v, str) else []) + ['_' + an, an]]
             else:
                 names = [(ms['name'], x, 'param') for p in ms['params'] if not p['export'] for x in ('_' + p['name'], p['name'])] + \
                         [(ms['name'], x, 'cmd') for c in ms['commands'] if not c['export'] for x in ('_' + c['name'], c['name'])]
